@@ -13,9 +13,11 @@ import (
 	crand "crypto/rand"
 	"errors"
 	"fmt"
+	"io"
 	"reflect"
 	"sort"
 	"strings"
+	"sync"
 	"testing"
 
 	"github.com/gauss-project/aurorafs/pkg/boson"
@@ -53,6 +55,17 @@ func verifC10IsZero(b []byte) bool {
 		}
 	}
 	return true
+}
+
+type verifC10LockedReader struct {
+	mu sync.Mutex
+	r  io.Reader
+}
+
+func (l *verifC10LockedReader) Read(p []byte) (int, error) {
+	l.mu.Lock()
+	defer l.mu.Unlock()
+	return l.r.Read(p)
 }
 
 type verifC10Val struct {
@@ -130,19 +143,29 @@ func verifC10MetaEq(a, b map[string]string) bool {
 }
 
 func TestVerifC10(t *testing.T) {
-	verifC10Run(t, false)
-	verifC10Run(t, true)
+	verifC10Run(t, false, false)
+	verifC10Run(t, true, false)
+	if mc.Thorough() && boson.Branches <= 64 {
+		verifC10Run(t, false, true) // longer sequences over a smaller alphabet
+	}
 }
 
-func verifC10Run(t *testing.T, encrypted bool) {
-	depth := mc.Pick(4, 6)
+func verifC10Run(t *testing.T, encrypted, small bool) {
+	depth := mc.Pick(4, 5)
 	name := fmt.Sprintf("C10-plain-%dbranches", boson.Branches)
 	if encrypted {
 		depth = mc.Pick(3, 4)
 		name = fmt.Sprintf("C10-encrypted-%dbranches", boson.Branches)
 	}
 	if boson.Branches > 64 {
-		depth-- // production geometry: same code, one step less
+		depth -= 2 // production geometry: same code, every stored node costs a 256 KiB chunk (and its encryption)
+	}
+	verifC10Paths, verifC10Entries := verifC10Paths, verifC10Entries
+	if small {
+		depth = 7
+		name = fmt.Sprintf("C10-plain-small-alphabet-%dbranches", boson.Branches)
+		verifC10Paths = []string{"a", "ab", "a/b"}
+		verifC10Entries = []verifC10Entry{verifC10Entries[0], verifC10Entries[2]}
 	}
 	depth = mc.EnvInt("VERIF_C10_DEPTH", depth)
 	refSize := boson.HashSize
@@ -169,7 +192,7 @@ func verifC10Run(t *testing.T, encrypted bool) {
 		// from crypto/rand.Reader at call time)
 		shake := sha3.NewShake128()
 		shake.Write([]byte("C10"))
-		crand.Reader = shake
+		crand.Reader = &verifC10LockedReader{r: shake} // mantaray saves sibling nodes from concurrent goroutines
 		storer := smock.NewStorer()
 		pipeFn := func() pipeline.Interface { return builder.NewPipelineBuilder(ctx, storer, storage.ModePutUpload, encrypted) }
 		var ls file.LoadSaver = loadsave.New(storer, pipeFn)
